@@ -307,21 +307,100 @@ def rule_zero_width_guard(ctx, rep, rid: str) -> None:
 
 
 # ----------------------------------------------------------------- C20 rules
+def _eval_nonglobal(t):
+    """Three-valued truth of a guard for a regex that is neither global nor sticky (None = unknown)."""
+    if isinstance(t, (ast.Name, ast.Attribute)):
+        nm = norm(t).lower()
+        return False if ("global" in nm or "sticky" in nm) else None
+    if isinstance(t, ast.UnaryOp) and isinstance(t.op, ast.Not):
+        v = _eval_nonglobal(t.operand)
+        return None if v is None else (not v)
+    if isinstance(t, ast.BoolOp):
+        vs = [_eval_nonglobal(v) for v in t.values]
+        if isinstance(t.op, ast.Or):
+            if any(v is True for v in vs):
+                return True
+            return False if all(v is False for v in vs) else None
+        if any(v is False for v in vs):
+            return False
+        return True if all(v is True for v in vs) else None
+    if isinstance(t, ast.Constant):
+        return bool(t.value)
+    return None
+
+
+def _feasible_nonglobal(gs) -> bool:
+    for t, pol in gs:
+        v = _eval_nonglobal(t)
+        if v is not None and v != bool(pol):
+            return False
+    return True
+
+
+def _copy_in_sources(ctx, js, m, call_line):
+    """Assignments to self._internal.lastIndex that run before the matcher call — in the method itself or in a
+    helper method of the class it calls first.  Returns [(assign node, holder func, [(source expr, guards)])]."""
+    out = []
+    holders = [(m, call_line)]
+    for n in m.own_nodes():
+        if isinstance(n, ast.Call) and isinstance(n.func, ast.Attribute) and norm(n.func.value) == "self" and n.lineno < call_line:
+            h = js.methods.get(n.func.attr)
+            if h is not None and h is not m:
+                holders.append((h, 10 ** 9))
+    for h, limit in holders:
+        for n in h.own_nodes():
+            if isinstance(n, ast.Assign) and norm(n.targets[0]) == "self._internal.lastIndex" and n.lineno < limit:
+                srcs = []
+                g0 = guards_of(n, h.node)
+                if isinstance(n.value, ast.Name):
+                    for a in h.own_nodes():
+                        if isinstance(a, ast.Assign) and any(isinstance(t, ast.Name) and t.id == n.value.id for t in a.targets):
+                            srcs.append((a.value, g0 + guards_of(a, h.node)))
+                if not srcs:
+                    srcs.append((n.value, g0))
+                flat = []
+                work = list(srcs)
+                while work:
+                    e, gs = work.pop()
+                    if isinstance(e, ast.IfExp):
+                        work.append((e.body, gs + [(e.test, True)]))
+                        work.append((e.orelse, gs + [(e.test, False)]))
+                    else:
+                        flat.append((e, gs))
+                out.append((n, h, flat))
+    return out
+
+
 def rule_lastindex_sync(ctx, rep, rid: str) -> None:
-    rep.rule(rid, "every JSRegExp method that runs the internal matcher copies lastIndex into the engine before the call and back after it; the lastIndex setter writes both copies", floor=3)
+    rep.rule(rid, "every JSRegExp method that runs the internal matcher copies the script-visible lastIndex into the engine before the call and back after it; unless the write-back is guarded by the global/sticky flags, no flag-dependent path may feed the engine anything but the property's value (a non-global regex must get its own lastIndex back); the lastIndex setter writes both copies", floor=3)
     js = ctx.tree.class_named("JSRegExp")
     for m in js.methods.values():
         calls = [n for n in m.own_nodes() if isinstance(n, ast.Call) and norm(n.func).startswith("self._internal.") and n.func.attr in ("exec", "test", "match", "search")]
         if not calls:
             continue
         c = calls[0]
-        before = [s for s in m.body() if s.lineno < c.lineno and isinstance(s, ast.Assign) and norm(s.targets[0]) == "self._internal.lastIndex" and "lastIndex" in norm(s.value)]
-        after = [s for s in m.body() if s.lineno > c.lineno and isinstance(s, ast.Assign) and norm(s.targets[0]) == "self.lastIndex" and norm(s.value) == "self._internal.lastIndex"]
         key = f"{m.qual}:sync"
-        if before and after:
-            rep.ok(rid, key)
+        copy_in = _copy_in_sources(ctx, js, m, c.lineno)
+        after = [s_ for s_ in m.own_nodes() if isinstance(s_, ast.Assign) and s_.lineno > c.lineno and norm(s_.targets[0]) == "self.lastIndex" and norm(s_.value) == "self._internal.lastIndex"]
+        if not copy_in or not after:
+            rep.bad(rid, key, f"{m.qual} runs the matcher without {'copying lastIndex in' if not copy_in else 'copying lastIndex back'}: the script-visible lastIndex and the engine's drift apart", m.loc)
+            continue
+        def flaggy(gs):
+            return any(("global" in norm(t) or "sticky" in norm(t)) for t, _ in gs)
+        back_guarded = all(flaggy(guards_of(a, m.node)) for a in after)
+        problem = None
+        for n, h, srcs in copy_in:
+            for src, gs in srcs:
+                derives = "lastIndex" in norm(src) or any(isinstance(x, ast.Name) for x in ast.walk(src))
+                if not derives and not gs:
+                    problem = (n, h, f"feeds the engine the constant {norm(src)} instead of the property")
+                elif not derives and flaggy(gs) and _feasible_nonglobal(gs) and not back_guarded:
+                    problem = (n, h, f"feeds the engine the constant {norm(src)} on a path that depends on the global/sticky flags, and the write-back after the matcher is unconditional: a non-global regex's lastIndex is overwritten with that constant instead of being preserved")
+        if problem:
+            n, h, why = problem
+            rep.bad(rid, key, f"{m.qual}: {h.qual} {why}", f"{h.module.rel}:{n.lineno}")
         else:
-            rep.bad(rid, key, f"{m.qual} runs the matcher without {'copying lastIndex in' if not before else 'copying lastIndex back'}: the script-visible lastIndex and the engine's drift apart", m.loc)
+            rep.ok(rid, key, {"copy_in": [f"{h.qual}:{norm(n)[:60]}" for n, h, _ in copy_in], "write_back_flag_guarded": back_guarded})
     # setter
     setter = None
     for n in js.node.body:
@@ -366,3 +445,123 @@ def rule_exec_test_agreement(ctx, rep, rid: str) -> None:
             rep.ok(rid, key, {"condition": a})
         else:
             rep.bad(rid, key, f"lastIndex {k.split(':')[1]} in the {k.split(':')[0]} path happens under {a} in exec but under {b} in test", f"{facade.module.rel}:{facade.methods['test'].line}")
+
+
+# ---- C09-R4: backtrack snapshots own their capture state ---------------------------------------
+
+def _copy_depth(e: ast.AST, state_names: Set[str]) -> Optional[Tuple[str, str]]:
+    """(state variable, DEEP|SHALLOW|ALIAS) when e is (a copy of) one of the matcher's state lists."""
+    if isinstance(e, ast.Name) and e.id in state_names:
+        return e.id, "ALIAS"
+    if isinstance(e, ast.Call):
+        fn = e.func
+        if isinstance(fn, ast.Attribute) and fn.attr == "copy" and isinstance(fn.value, ast.Name) and fn.value.id in state_names and not e.args:
+            return fn.value.id, "SHALLOW"
+        if isinstance(fn, ast.Name) and fn.id in ("list", "tuple") and len(e.args) == 1 and isinstance(e.args[0], ast.Name) and e.args[0].id in state_names:
+            return e.args[0].id, "SHALLOW"
+        if norm(fn) in ("copy.deepcopy", "deepcopy") and e.args and isinstance(e.args[0], ast.Name) and e.args[0].id in state_names:
+            return e.args[0].id, "DEEP"
+        if norm(fn) in ("copy.copy",) and e.args and isinstance(e.args[0], ast.Name) and e.args[0].id in state_names:
+            return e.args[0].id, "SHALLOW"
+    if isinstance(e, ast.Subscript) and isinstance(e.value, ast.Name) and e.value.id in state_names and isinstance(e.slice, ast.Slice) and e.slice.lower is None and e.slice.upper is None:
+        return e.value.id, "SHALLOW"
+    if isinstance(e, ast.ListComp) and len(e.generators) == 1 and isinstance(e.generators[0].iter, ast.Name) and e.generators[0].iter.id in state_names and isinstance(e.generators[0].target, ast.Name):
+        tv = e.generators[0].target.id
+        el = e.elt
+        copies = (isinstance(el, ast.Call) and ((isinstance(el.func, ast.Attribute) and el.func.attr == "copy" and norm(el.func.value) == tv) or (isinstance(el.func, ast.Name) and el.func.id in ("list", "tuple") and el.args and norm(el.args[0]) == tv))) or (isinstance(el, ast.Subscript) and norm(el.value) == tv and isinstance(el.slice, ast.Slice)) or (isinstance(el, (ast.List, ast.Tuple)) and all(isinstance(x, ast.Subscript) and norm(x.value) == tv for x in el.elts))
+        return e.generators[0].iter.id, ("DEEP" if copies else "SHALLOW")
+    return None
+
+
+def rule_snapshot_ownership(ctx, rep, rid: str) -> None:
+    """Backtracking restores a snapshot taken at a choice point.  That only undoes later capture writes when the
+    snapshot does not share mutable slots with the live state: either snapshots copy every slot, or every write
+    installs a fresh slot.  Decided per matcher loop, with the write mode taken over ALL loops because the
+    capture lists flow between them (arguments and return values)."""
+    rep.rule(rid, "choice-point snapshots never share mutable state with the live match state: capture snapshots copy each slot unless every capture write in every matcher loop replaces the slot; no snapshot is a bare alias", floor=3)
+    loops = ctx.facts.matcher_loops()
+    inplace: List[Tuple[Func, ast.AST]] = []
+    per_fn = []
+    for f, _loop in loops:
+        # nested state: variables whose elements are lists ([[..] for ..] initialisers or copies of a parameter holding them)
+        nested: Set[str] = set()
+        flat: Set[str] = set()
+        for n in f.own_nodes():
+            if isinstance(n, ast.Assign) and len(n.targets) == 1 and isinstance(n.targets[0], ast.Name):
+                v = n.value
+                if isinstance(v, ast.ListComp) and isinstance(v.elt, (ast.List, ast.ListComp)):
+                    nested.add(n.targets[0].id)
+                elif isinstance(v, ast.BinOp) and isinstance(v.op, ast.Mult) and isinstance(v.left, ast.List):
+                    flat.add(n.targets[0].id)
+        # parameters / derived names carrying capture lists
+        for p in f.params():
+            if "capture" in p.lower():
+                nested.add(p)
+        changed = True
+        while changed:
+            changed = False
+            for n in f.own_nodes():
+                if isinstance(n, ast.Assign) and len(n.targets) == 1 and isinstance(n.targets[0], ast.Name) and n.targets[0].id not in nested:
+                    d = _copy_depth(n.value, nested)
+                    if d is not None:
+                        nested.add(n.targets[0].id)
+                        changed = True
+        state = nested | flat
+        snaps = []
+        for n in f.own_nodes():
+            # stack.append((pc, sp, <captures>, <registers>))
+            if isinstance(n, ast.Call) and isinstance(n.func, ast.Attribute) and n.func.attr == "append" and n.args and isinstance(n.args[0], ast.Tuple):
+                for el in n.args[0].elts:
+                    d = _copy_depth(el, state)
+                    if d is not None:
+                        snaps.append((n, d[0], d[1], "choice point"))
+            if isinstance(n, ast.Assign) and len(n.targets) == 1 and isinstance(n.targets[0], ast.Name):
+                d = _copy_depth(n.value, state)
+                if d is not None and n.targets[0].id != d[0] and d[1] != "ALIAS":
+                    snaps.append((n, d[0], d[1], f"saved copy {n.targets[0].id}"))
+                elif d is not None and n.targets[0].id != d[0] and d[1] == "ALIAS" and ("saved" in n.targets[0].id or d[0] in f.params()):
+                    snaps.append((n, d[0], d[1], f"saved copy {n.targets[0].id}"))
+            # in-place slot writes: captures[i][j] = v
+            tg = []
+            if isinstance(n, ast.Assign):
+                tg = n.targets
+            elif isinstance(n, ast.AugAssign):
+                tg = [n.target]
+            for t in tg:
+                if isinstance(t, ast.Subscript) and isinstance(t.value, ast.Subscript) and isinstance(t.value.value, ast.Name) and t.value.value.id in nested:
+                    inplace.append((f, n))
+            if isinstance(n, ast.Call) and isinstance(n.func, ast.Attribute) and n.func.attr in ("append", "extend", "insert", "pop", "clear", "sort", "reverse") and isinstance(n.func.value, ast.Subscript) and isinstance(n.func.value.value, ast.Name) and n.func.value.value.id in nested:
+                inplace.append((f, n))
+        # isolated: every local state list derived from a parameter is a deep copy of it (slots not shared with the caller)
+        isolated = True
+        for n in f.own_nodes():
+            if isinstance(n, ast.Assign) and len(n.targets) == 1 and isinstance(n.targets[0], ast.Name):
+                d = _copy_depth(n.value, set(f.params()) & nested)
+                if d is not None and d[1] != "DEEP":
+                    isolated = False
+        for t_ in [w for g_, w in inplace if g_ is f]:
+            tn = t_.targets[0] if isinstance(t_, ast.Assign) else getattr(t_, "target", None)
+            if tn is not None and isinstance(tn, ast.Subscript) and isinstance(tn.value, ast.Subscript) and isinstance(tn.value.value, ast.Name) and tn.value.value.id in f.params():
+                isolated = False
+        per_fn.append((f, nested, flat, snaps, isolated))
+    iso = {id(f): i for f, _, _, _, i in per_fn}
+    for f, nested, flat, snaps, _i in per_fn:
+        inplace_f = [(g, w) for g, w in inplace if g is f or not iso[id(g)]]
+        key = f"{f.qual}:snapshots"
+        if not snaps:
+            # a matcher loop without choice points is fine only if it has no split handling; floors make sure the others are seen
+            rep.ok(rid, key, {"snapshots": 0})
+            continue
+        bad = None
+        for n, var, depth, what in snaps:
+            if depth == "ALIAS":
+                bad = (n, f"the {what} stores the live `{var}` list itself: later writes change the snapshot too, so backtracking restores nothing")
+                break
+            if depth == "SHALLOW" and var in nested and inplace_f:
+                g, w = inplace_f[0]
+                bad = (n, f"the {what} copies only the outer `{var}` list, while {g.qual} still writes capture slots in place ({norm(w)[:50]}, {g.module.rel}:{w.lineno}): an abandoned alternative's capture survives backtracking")
+                break
+        if bad:
+            rep.bad(rid, key, f"{f.qual}: {bad[1]}", f"{f.module.rel}:{bad[0].lineno}")
+        else:
+            rep.ok(rid, key, {"snapshots": len(snaps), "depths": sorted({d for _, _, d, _ in snaps}), "in_place_slot_writes_that_can_touch_it": len(inplace_f)})
